@@ -2,3 +2,14 @@
 import SquidModel.Properties.C37
 #print axioms SquidModel.C37.unpack_total_no_oob
 #print axioms SquidModel.C37.name_unpack_total_no_oob
+#print axioms SquidModel.C37.name_unpack_encodes_partial
+#print axioms SquidModel.C37.record_unpack_encodes_partial
+#print axioms SquidModel.C37.unpack_encodes_partial
+#print axioms SquidModel.C37.encoding_ignores_trailing_octets
+#print axioms SquidModel.C37.header_roundtrip
+#print axioms SquidModel.C37.query_roundtrip
+#print axioms SquidModel.C37.deep_chain_counterexample
+#print axioms SquidModel.C37.pointer_to_root_counterexample
+#print axioms SquidModel.C37.edns_query_memcpy_null_counterexample
+#print axioms SquidModel.C37.sample_name
+#print axioms SquidModel.C37.sample_encodes
